@@ -5,7 +5,8 @@ CONSTANT NTrees = 2
 CONSTANT NKw = 4
 CONSTANT WithPut = FALSE
 CONSTANT Filter = FALSE
+CONSTANT Rand = FALSE
 INIT Init
 NEXT Next
-INVARIANT CallerMapsUnchanged
+INVARIANT NotBothBroken
 CHECK_DEADLOCK FALSE
